@@ -67,12 +67,33 @@ def search(ctx):
                     why, cls = 'genhkl_all rows not sorted by sin(theta)/lambda', 'sort'
         except Exception as e:
             why, cls = 'raised %s: %s' % (type(e).__name__, e), 'exc'
-        ctx.count(('uniq', no, ch, k), hist='search:%s:%s' % (s.crystal_system, 'oblique' if HC.oblique(case) else 'orthogonal metric'),
+        ctx.count(('uniq', no, ch, k), hist='search:%s:%s%s' % (s.crystal_system, 'oblique' if HC.oblique(case) else 'orthogonal metric', (':' + case['kind']) if case.get('kind') else ''),
                   sample={'sgno': no, 'cell_choice': ch, 'cell': case['cell'], 'sintlmax': case['hi'], 'families': len(fams)} if no == 62 else None)
         if why and (cls, s.crystal_system if cls == 'F6' else no) not in seen:
             seen.add((cls, s.crystal_system if cls == 'F6' else no))
             fails.append({'sgno': no, 'cell_choice': ch, 'cell': case['cell'], 'sintlmin': case['lo'], 'sintlmax': case['hi'], 'module': mod.__name__,
                           'class': cls, 'what': why, 'replay': '%s.genhkl_unique(%r, %r, %r, sgno=%d, cell_choice=%r): %s' % (mod.__name__, case['cell'], case['lo'], case['hi'], no, ch, why)})
+    # sintlmin exclusive / sintlmax inclusive, with the bound equal to the module's own sintl of a point the traversal evaluates
+    for kb, (no, s, K, cell, h0) in enumerate(HC.boundary_cases(ctx)):
+        mod = tools if kb % 2 == 0 else laue
+        R, t = HR.ops_int(s)
+        fam = HR.laue_orbit(h0, R, s.nuniq)
+        why = None
+        try:
+            b = float(mod.sintl(cell, np.array(h0)))
+            inc = set(HC.rows_of(mod.genhkl_unique(cell, 0.0, b, sgno=no)))
+            exc = set(HC.rows_of(mod.genhkl_unique(cell, b, 1.4 * b, sgno=no)))
+            if not (inc & fam):
+                why = 'sintlmax is not inclusive: with sintlmax = sintl(%r) the family of %r is missing' % (list(h0), list(h0))
+            elif exc & fam:
+                why = 'sintlmin is not exclusive: with sintlmin = sintl(%r) the family of %r is listed' % (list(h0), list(h0))
+        except Exception as e:
+            why = 'raised %s: %s' % (type(e).__name__, e)
+        ctx.count(('bound', no, kb), hist='search:boundary:%s' % s.crystal_system)
+        if why and ('bound', mod.__name__) not in seen:
+            seen.add(('bound', mod.__name__))
+            fails.append({'sgno': no, 'cell_choice': 'standard', 'cell': cell, 'hkl': list(h0), 'module': mod.__name__, 'class': 'boundary', 'what': why,
+                          'replay': '%s.genhkl_unique boundary at sintl(%r), sgno=%d, cell=%r: %s' % (mod.__name__, list(h0), no, cell, why)})
     # by name with the default cell_choice (R...r names select the rhombohedral setting themselves)
     from xfab import sg
     for no in (146, 148, 160, 166, 167):
